@@ -46,6 +46,12 @@ func BuildBoxes(h *tree.HTML, user []tree.CSS, hints bool, fc text.FontConfigura
 }
 
 func BuildBoxesStyle(h *tree.HTML, user []tree.CSS, hints bool, fc text.FontConfiguration) (bo.BlockLevelBoxITF, *tree.StyleFor) {
+	b, st, _ := BuildBoxesAll(h, user, hints, fc)
+	return b, st
+}
+
+// BuildBoxesAll also returns the footnote boxes, which box building keeps out of the tree.
+func BuildBoxesAll(h *tree.HTML, user []tree.CSS, hints bool, fc text.FontConfiguration) (bo.BlockLevelBoxITF, *tree.StyleFor, []bo.Box) {
 	cs := make(counters.CounterStyle)
 	tc := tree.NewTargetCollector()
 	style := Styles(h, user, hints, fc, cs, nil, &tc, true)
@@ -54,7 +60,8 @@ func BuildBoxesStyle(h *tree.HTML, user []tree.CSS, hints bool, fc text.FontConf
 		return images.GetImageFromUri(cache, h.UrlFetcher, false, url, forcedMimeType, orientation)
 	}
 	footnotes := new([]bo.Box)
-	return bo.BuildFormattingStructure(h.Root, style, bo.URLResolver{Fetch: h.UrlFetcher, FetchImage: imgFetcher}, h.BaseUrl, &tc, cs, footnotes), style
+	root := bo.BuildFormattingStructure(h.Root, style, bo.URLResolver{Fetch: h.UrlFetcher, FetchImage: imgFetcher}, h.BaseUrl, &tc, cs, footnotes)
+	return root, style, *footnotes
 }
 
 // WalkBoxes visits b and its descendants in document order; f returns false to skip the children.
